@@ -125,6 +125,16 @@ func init() {
 		t := args[0].(*Term)
 		return mkConst(64, x.Concretize(t, "verifrt.Concretize"))
 	})
+	rt("LoopBudget", func(x *Exec, fr *frame, args []Value) Value {
+		x.loopBudget = int(x.concreteInt(args[0], "LoopBudget"))
+		x.stepBudget = x.concreteInt(args[1], "LoopBudget steps")
+		x.stepBudgetStart = x.steps
+		return nil
+	})
+	rt("LoopBudgetEnd", func(x *Exec, fr *frame, args []Value) Value {
+		x.loopBudget, x.stepBudget = 0, 0
+		return nil
+	})
 	rt("AllocCheck", func(x *Exec, fr *frame, args []Value) Value { return nil })
 	b2s := func(x *Exec, fr *frame, args []Value) Value { return normStr(sliceTerms(args[0])) }
 	reg("github.com/sourcegraph/zoekt/query.b2s", b2s)
